@@ -59,8 +59,9 @@ import GqlProofs.EndToEnd.ParsedSchemaShape
     the loader reads SKELETONS only (GqlProofs/Format/LoadSkeleton.lean): `validate…_sk`.
     Exceptions, each a kernel-checked theorem: `C13_schema_description_not_printed` / `…_counterexample` (R13e),
       `C13_builtin_output_not_reloadable`, `C13_schema_not_a_fixpoint_counterexample`,
-      `C13_schema_linebreak_indent_counterexample`; NEW FINDINGS `C13_schema_hidden_fields_counterexample`
-      (`scalar Query` prints `scalar Query {⏎}`), `C13_schema_reload_needs_no_builtin_extension`
+      `C13_schema_linebreak_indent_counterexample`; `C13_schema_hidden_fields_rejected` (`scalar Query` used to
+      load and print `scalar Query {⏎}`; it is rejected since the repair of the root kinds, and `NoAllHidden`
+      holds of every loaded schema); NEW FINDING `C13_schema_reload_needs_no_builtin_extension`
       (`extend type __Type { … }` is lost).
   END TO END, over source texts (`EndToEnd/ParsedSchemaShape.lean`: one traversal of the schema parser
   model over the tokens of the lexer model):
@@ -384,17 +385,18 @@ open Gql.Load in
     same schema directives, the same possible types and implementers up to order.
     `Schema.Description` is not kept (`ReloadEquiv.description`, recorded finding).
     Hypotheses on `s` (each decidable, each shown necessary below or guaranteed for parsed sources):
-    `NoAllHidden` — no printed definition has only hidden fields (fails exactly for a scalar / enum / union
-    query root: FINDING, `C13_schema_hidden_fields_counterexample`); `FormattableSchema`, `ItemOK` of the
+    (`NoAllHidden` — no printed definition has only hidden fields — is no longer one: it holds of every
+    loaded schema, `noAllHidden_of_loaded`, since the query root is an object type;
+    `C13_schema_hidden_fields_rejected`); `FormattableSchema`, `ItemOK` of the
     printed document — names are names, … (what the lexer and parser guarantee); `RootsPrintable` — when no
     schema definition is printed the roots are the default-named types (always true when the schema
     definitions of the sources list an operation type, as the parser requires). -/
 theorem C13_schema_reload {cfg : Cfg} (hind : AllBlank cfg.indent) (hb : cfg.emitBuiltin = false)
     (pre u : SchemaDoc) (s : Schema) (hpre : PreludeShape pre) (hu : UserShape pre u)
-    (hload : load (pre.merge u) = .ok s) (hh : NoAllHidden cfg s) (hd : FormattableSchema (docOfSchema cfg s))
+    (hload : load (pre.merge u) = .ok s) (hd : FormattableSchema (docOfSchema cfg s))
     (hok : DocAll ItemOK (docOfSchema cfg s)) (hrp : RootsPrintable s) (src : Nat) :
     ∃ P s', parseSchemaSrc 0 src false (fmtSchema cfg s) = .ok P ∧ load (pre.merge P) = .ok s' ∧ ReloadEquiv cfg s s' := by
-  obtain ⟨P, hP1, hP2⟩ := C13_schema_format_parses hind s hh hd hok src false
+  obtain ⟨P, hP1, hP2⟩ := C13_schema_format_parses hind s (noAllHidden_of_loaded cfg hload) hd hok src false
   obtain ⟨s', h1, h2⟩ := reload_main hb hpre hu hload (P := P) hP2 hrp
   exact ⟨P, s', hP1, h1, h2⟩
 
@@ -410,15 +412,16 @@ theorem C13_schema_reload_document {cfg : Cfg} (hb : cfg.emitBuiltin = false) (p
 open Gql.Load in
 /-- (3′) **the same with hypotheses about the SOURCES only.**  `s` is loaded from `prelude ⊕ u`; the merged
     source document is formattable and satisfies the side conditions of the grammar (`FormattableSchema`,
-    `DocAll ItemOK`: both are what the lexer and the parser guarantee, cf. `C06_parse_printable`); the
-    query root is an object, interface or input object type (`QueryRootHasFields`; it cannot be dropped:
-    `C13_schema_hidden_fields_counterexample`).  Then the formatted text of `s` parses, loads on top of the
-    prelude, and the result is `ReloadEquiv` to `s`.  The hypotheses about `s` of `C13_schema_reload` are
-    derived: `noAllHidden_of_loaded`, `docOfSchema_printable`, `rootsPrintable_of_loaded`. -/
+    `DocAll ItemOK`: both are what the lexer and the parser guarantee, cf. `C06_parse_printable`).
+    (The former hypothesis `QueryRootHasFields` — the query root is an object, interface or input object
+    type — is an invariant of `load` since the repair of the root kinds, `queryRootHasFields_of_loaded`.)
+    Then the formatted text of `s` parses, loads on top of the prelude, and the result is `ReloadEquiv` to
+    `s`.  The hypotheses about `s` of `C13_schema_reload` are derived: `docOfSchema_printable`,
+    `rootsPrintable_of_loaded`. -/
 theorem C13_schema_reload_of_sources {cfg : Cfg} (hind : AllBlank cfg.indent) (hb : cfg.emitBuiltin = false)
     (pre u : SchemaDoc) (s : Schema) (hpre : PreludeShape pre) (hu : UserShape pre u)
     (hload : load (pre.merge u) = .ok s) (hF : FormattableSchema (pre.merge u)) (hI : DocAll ItemOK (pre.merge u))
-    (hq : QueryRootHasFields s) (src : Nat) :
+    (src : Nat) :
     ∃ P s', parseSchemaSrc 0 src false (fmtSchema cfg s) = .ok P ∧ load (pre.merge P) = .ok s' ∧ ReloadEquiv cfg s s' := by
   obtain ⟨hd, hok⟩ := docOfSchema_printable (cfg := cfg) hb hload hF hI
   have hs : SchemaDefsHaveRoots (pre.merge u) := by
@@ -430,7 +433,7 @@ theorem C13_schema_reload_of_sources {cfg : Cfg} (hind : AllBlank cfg.indent) (h
       refine ⟨o, by simp, ?_⟩
       have := hops o (by rw [hl]; simp)
       rcases this with h | h | h <;> rw [h] <;> decide
-  exact C13_schema_reload hind hb pre u s hpre hu hload (noAllHidden_of_loaded cfg hload hq) hd hok
+  exact C13_schema_reload hind hb pre u s hpre hu hload hd hok
     (rootsPrintable_of_loaded hload hs) src
 
 open Gql.Load Gql.Format.Examples in
@@ -463,7 +466,7 @@ example : ∃ P s', parseSchemaSrc 0 1 false (fmtSchema {} (loadD (SchemaDoc.emp
       simp [field] at ha
     · intro x hx; cases hx
   exact C13_schema_reload_of_sources (by intro b hb; simp at hb; subst hb; decide) rfl SchemaDoc.empty plainQueryDoc _
-    (by decide) (by decide) (loadD_ok (by decide)) (by decide) hI (by decide) 1
+    (by decide) (by decide) (loadD_ok (by decide)) (by decide) hI 1
 
 /-! ### the recorded exceptions, kernel-checked -/
 
@@ -535,8 +538,11 @@ theorem C13_builtin_output_not_reloadable {cfg : Cfg} (hb : cfg.emitBuiltin = tr
 section Witnesses
 open Gql.Load Gql.Format.Examples
 
-/-- `scalar Query`, loaded (the loader makes it the query root and appends `__schema`, `__type`) -/
-def C13_scalarQuerySchema : Schema := loadD (SchemaDoc.empty.merge scalarQueryDoc)
+/-- the schema `scalar Query` loaded to BEFORE the repair of the root kinds: the scalar is the query root
+    and carries `__schema`, `__type` (a hand-built `Schema` value now; the loader rejects the source) -/
+def C13_scalarQuerySchema : Schema :=
+  { Schema.empty with query := some (str "Query"),
+                      types := [(str "Query", addIntrospection (mkDef .scalar "Query" []))] }
 
 theorem C13_scalarQuerySchema_raw :
     docOfSchemaRaw C13_scalarQuerySchema = docOf [addIntrospection (mkDef .scalar "Query" [])] := by
@@ -548,17 +554,27 @@ theorem C13_scalarQuerySchema_raw :
   rw [ht, hd, sortedByKey_single, h1, h2]
   simp [sortedByKey, docOf]
 
-/-- FINDING (new, consequence of the recorded C07 finding `non-object-root-type`): `scalar Query` loads; the
-    loader appends the introspection fields to the scalar; `FormatSchema` hides them but still writes the
-    braces of the field list: the text is `scalar Query {⏎}⏎`, which is not a type-system document (Go:
-    `rts` answers `reparse-fails:Unexpected {`; the same for `enum Query { A }` and `union Query = A`).
-    Here: `NoAllHidden` fails, and without it the text is NOT the text of `docOfSchema` (`scalar Query⏎`). -/
-theorem C13_schema_hidden_fields_counterexample :
-    load (SchemaDoc.empty.merge scalarQueryDoc) = .ok C13_scalarQuerySchema ∧
+/-- REPAIRED (was the finding `C13_schema_hidden_fields_counterexample`, a consequence of the C07 finding
+    `non-object-root-type`): `scalar Query` is REJECTED by the loader ("Schema root query must be an object
+    type, Query is a SCALAR."), so no loaded schema has a definition whose fields are all hidden
+    (`noAllHidden_of_loaded`).  For an arbitrary `Schema` VALUE the hypothesis `NoAllHidden` of
+    `C13_schema_text_is_document_text` is still needed: on the schema the old loader returned, `FormatSchema`
+    hides the introspection fields but writes the braces — `scalar Query {⏎}⏎`, not a type-system
+    document — while the text of `docOfSchema` is `scalar Query⏎`. -/
+theorem C13_schema_hidden_fields_rejected :
+    (∃ e, load (SchemaDoc.empty.merge scalarQueryDoc) = .err e ∧
+      e.msg = Msg.rootNotObject opQuery (str "Query") .scalar) ∧
     ¬ NoAllHidden {} C13_scalarQuerySchema ∧
     fmtSchema {} C13_scalarQuerySchema = str "scalar Query {\n}\n" ∧
     fmtSchemaDoc {} (docOfSchema {} C13_scalarQuerySchema) = str "scalar Query\n" := by
-  refine ⟨loadD_ok (by decide), by decide, ?_, ?_⟩
+  refine ⟨?_, by decide, ?_, ?_⟩
+  · have key : (match load (SchemaDoc.empty.merge scalarQueryDoc) with
+        | .err e => decide (e.msg = Msg.rootNotObject opQuery (str "Query") .scalar)
+        | _ => false) = true := by decide
+    cases h : load (SchemaDoc.empty.merge scalarQueryDoc) with
+    | err e => rw [h] at key; exact ⟨e, rfl, of_decide_eq_true key⟩
+    | ok s => rw [h] at key; cases key
+    | panic => rw [h] at key; cases key
   · rw [C13_schema_text_is_raw_document_text, C13_scalarQuerySchema_raw]
     decide
   · have ht : C13_scalarQuerySchema.types = [(str "Query", addIntrospection (mkDef .scalar "Query" []))] := rfl
@@ -668,7 +684,7 @@ end Witnesses
 #print axioms C13_schema_description_not_printed
 #print axioms C13_schema_description_counterexample
 #print axioms C13_builtin_output_not_reloadable
-#print axioms C13_schema_hidden_fields_counterexample
+#print axioms C13_schema_hidden_fields_rejected
 #print axioms C13_schema_reload_needs_no_builtin_extension
 #print axioms C13_schema_not_a_fixpoint_counterexample
 #print axioms C13_schema_linebreak_indent_counterexample
